@@ -98,6 +98,12 @@ pub struct PairScenario {
     pub links: [LinkCfg; 2],
     pub ticks: Vec<Tick>,
     pub tail: Option<Tail>,
+    /// forged ack frames without groups, handed to endpoint `ep` after the tick selected by `after_tick`, whose
+    /// packet window base names a packet that has not been sent yet (`ahead` beyond the sender's next id): an
+    /// acknowledgement for something that does not exist, which must be ignored - also later, when a packet with
+    /// that id does exist. (after_tick selector, ep, ahead)
+    #[serde(default, skip_serializing_if = "Vec::is_empty")]
+    pub premature_acks: Vec<(u16, u8, u16)>,
 }
 
 impl PairScenario {
@@ -355,6 +361,10 @@ pub struct SimPair {
     /// OTHER endpoint (the one that made no headway) held after any of its steps during the last third to two
     /// thirds of the stall window
     pub chatter_stall_max_credit: Option<i64>,
+    /// (tick number, endpoint, ahead), see `PairScenario::premature_acks`
+    premature: Vec<(u32, usize, u32)>,
+    frm_base: [u32; 2],
+    pub premature_injected: u32,
 }
 
 impl SimPair {
@@ -400,7 +410,33 @@ impl SimPair {
             }),
             chatter_packets: 0,
             chatter_stall_max_credit: None,
+            premature: sc.premature_acks.iter().map(|(sel, e, ahead)| (crate::engine::pick_index(*sel, sc.ticks.len().max(1)) as u32, (*e % 2) as usize, (*ahead as u32).max(1))).collect(),
+            frm_base: [sc.dirs[0].frm_base, sc.dirs[1].frm_base],
+            premature_injected: 0,
         }
+    }
+
+    /// Hands endpoint `e` a forged ack frame without groups whose packet window base lies `ahead` beyond the next
+    /// packet id `e` will use (its frame window base is e's initial one: behind everything, so it cannot move the frame
+    /// window either). The frame is recorded like a frame of the peer that was handed over, so that the sender models
+    /// see it; it is not something the peer emitted.
+    pub fn inject_premature_ack(&mut self, e: usize, ahead: u32) -> bool {
+        use uflow::verif::Serialize as _;
+        let (base, next) = self.hc[e].verif_packet_window();
+        let span = next.wrapping_sub(base) & PKT_MASK;
+        if span + ahead >= 0x40000 || ahead == 0 {
+            return false;
+        }
+        let pb = next.wrapping_add(ahead) & PKT_MASK;
+        let f = Frame::AckFrame(uflow::verif::AckFrame { frame_window_base_id: self.frm_base[e], packet_window_base_id: pb, frame_acks: Vec::new() }).write();
+        let wire_idx = self.trace.wire[1 - e].len() as u32;
+        let evs = self.next_ev();
+        self.trace.wire[1 - e].push(WireRec { seq: evs, t_us: self.now_us, tick: self.tick_no, epoch: self.epoch[1 - e], bytes: f.clone(), fate: Fate::Deliver(0), fair: self.fair });
+        let accepted = self.handle_bytes(e, &f);
+        let evs = self.next_ev();
+        self.trace.handled[e].push(HandledRec { seq: evs, t_us: self.now_us, epoch: self.epoch[e], wire_idx, corrupted: false, accepted });
+        self.premature_injected += 1;
+        true
     }
 
     fn next_ev(&mut self) -> u64 {
@@ -687,6 +723,12 @@ impl SimPair {
             }
             if !act.sends.is_empty() || act.flushes > 0 {
                 self.snapshot(e);
+            }
+        }
+        if !self.premature.is_empty() {
+            let due: Vec<(usize, u32)> = self.premature.iter().filter(|p| p.0 == self.tick_no).map(|p| (p.1, p.2)).collect();
+            for (e, ahead) in due {
+                self.inject_premature_ack(e, ahead);
             }
         }
         self.tick_no += 1;
